@@ -3,7 +3,7 @@ import random
 import time
 
 from . import spec, gen, checkers, workloads
-from .world import World, Lib
+from .world import World, Lib, infork
 
 _lib = None
 
@@ -58,7 +58,26 @@ def run_gen(job):
     program, info = workloads.build(job['property'], rng, w, cfg, job.get('index', 0))
     ops = []
     cap = cfg.get('max_ops', 80)
+    cases = []
+    steps = 0
     for op in program:
+        if 'case' in op:
+            # a fault case: executed on a forked copy of the world built so far (pristine per case)
+            suffix = [dict(o, id=len(ops) + k) for k, o in enumerate(op['case'])]
+            res = infork(lambda: _run_case(w, suffix))
+            steps += len(suffix)
+            if isinstance(res, dict):
+                for k, v in res['stats'].items():
+                    w.stats[k] = w.stats.get(k, 0) + v
+                for v in res['viol']:
+                    v = dict(v)
+                    v['ops'] = ops + suffix
+                    v['at'] = len(ops) + (v.get('at') or 0)
+                    w.viol.append(v)
+                cases.append({'label': op.get('label'), 'r': [e.get('r') + (':' + e['t'] if e.get('t') else '') for e in res['events']]})
+            else:
+                w.viol.append({'property': job['property'], 'clause': 'harness-case-failed', 'at': len(ops), 'detail': res})
+            continue
         op = dict(op)
         op['id'] = len(ops)
         ops.append(op)
@@ -67,7 +86,25 @@ def run_gen(job):
             break
         if w.viol and cfg.get('stop_on_violation', False):
             break
-    return _result(w, ops, t0, {'info': info, 'seed': seed})
+    extra = {'info': info, 'seed': seed, 'steps': len(ops) + steps}
+    if cases:
+        extra['cases'] = cases
+    return _result(w, ops, t0, extra)
+
+
+def _run_case(w, suffix):
+    base_stats = dict(w.stats)
+    nviol = len(w.viol)
+    nev = len(w.events)
+    for op in suffix:
+        w.execute(op)
+    stats = {k: v - base_stats.get(k, 0) for k, v in w.stats.items() if v != base_stats.get(k, 0)}
+    viol = []
+    for v in w.viol[nviol:]:
+        v = dict(v)
+        v['at'] = v['at'] - nev if isinstance(v.get('at'), int) else v.get('at')
+        viol.append(v)
+    return {'events': w.events[nev:], 'viol': viol, 'stats': stats}
 
 
 def run_replay(job):
